@@ -20,6 +20,9 @@ def monitor(case, il, sl):
     v = monitors.crash(tr, "c09-crash")
     if v:
         return v
+    v = monitors.shared_ids(tr, "c09-id-shared")
+    if v:
+        return v
     rr = refrun.RefRun(tr)
     v = monitors.stale_closeok(tr, rr)
     if v:
@@ -115,7 +118,10 @@ def gen_api(tier, seed):
 
 
 def suites(tier, seed):
-    return [Suite("reply-then-close", "machine", lambda: mg.reply_close_cases(Rng(seed + 77), kinds=("chan",)), monitor=monitor, nontrivial=lambda c, il: True, canon=mg.canon_nondet, candidate_ok=mg.candidate_ok, exhaustive=True,
+    return [Suite("id-lifecycles", "machine", lambda: mg.id_lifecycle_cases(Rng(seed + 5), 2, 6 if tier == "quick" else 7, stride=3 if tier == "quick" else 1, offset=seed) + mg.id_lifecycle_cases(Rng(seed + 6), 3, 6, stride=41 if tier == "quick" else 5, offset=seed, prefix="j"),
+                  monitor=monitor, nontrivial=lambda c, il: True, canon=mg.canon_nondet, candidate_ok=mg.candidate_ok, shards=4,
+                  rule="channel_max 2: every sequence of 6 (thorough: 7) operations from {open automatic, open id 1, open id 2, close 1, close 2} (quick: every 3rd); channel_max 3: sequences of 6 sampled; then a call in flight on every open channel, replies arriving in reverse order: each reply reaches the channel that asked, ids are never shared"),
+            Suite("reply-then-close", "machine", lambda: mg.reply_close_cases(Rng(seed + 77), kinds=("chan",)), monitor=monitor, nontrivial=lambda c, il: True, canon=mg.canon_nondet, candidate_ok=mg.candidate_ok, exhaustive=True,
                   rule="directed: a call in flight on channel 1, a second channel busy; the reply and a server close arrive back to back (one read / two reads / handed over directly; reply taken before or after the close) for queue bounds 0, 1, 2, 16: both reach the caller in order, the other channel keeps working (channel close) or is told (connection close)"),
             Suite("server-close-at-api", "api", lambda: gen_api(tier, seed), monitor=api_monitor, nontrivial=lambda c, il: True, canon=apigen.canon,
                   rule="public API over the real queue ends: two channels; the server's Channel.Close(n, code, text) is queued for n's handle and n's slot is gone; the next operation on n is Channel::close (35%) or a random one of the 36 API calls; then a call on the other channel. Exact diff against the Lean Api model + monitor from the property text"),
